@@ -752,7 +752,7 @@ def run(run):
     run.assumptions += [
         "observation = the text a template printed (results and error messages are rendered into it); for the "
         "template that ended the process also stderr and the exit status of ckl.run",
-        "a map's `values` enumerated by sorted key (for) or as sorted values (comprehensions, list(m)) both count as sorted order",
+        "a map's `values` are enumerated by ascending key (for, comprehensions); list(m) sorts the values themselves; both count as sorted order",
         "sorted order of mixed scalars = the language's own `<`; pools on which `<` is not a strict total order are "
         "checked for identical outcomes only",
         "objects keep insertion order by design; only object(map) (an enumeration of a map) is in scope",
